@@ -45,3 +45,38 @@ package object
 //gvc:  results r err
 //gvc:  ensures fresh: err == nil ==> r != nil && r.#pos == 0 && r.#data == spec_objdata(keyid(b.Hash)) && r.#n == spec_objlen(keyid(b.Hash)) && 0 <= r.#n && r.#n <= 0x4000000000000000
 //gvc:end
+
+// Tree.Validate (property C04: only fsck-clean trees are written; Encode calls
+// Validate first). A nil result means: every entry has a non-empty name
+// without '/', a non-null id and one of git's tree modes, and no two entries
+// have the same name -- wherever they stand in the list (a file "a" and a
+// directory "a" sort apart: "a" < "a.b" < "a/"), which is git's
+// fsck_tree duplicate rule (verify_ordered + name stack).
+//gvc:func (*Tree).Validate
+//gvc:  props C04
+//gvc:  theory int
+//gvc:  opt coarse
+//gvc:  opt frame args
+//gvc:  opt inline
+//gvc:  loop 1 invariant modes: len(errs) == 0 ==> forall(a, 0, it1, spec_tree_mode(t.Entries[a].Mode))
+//gvc:  ensures modes: result == nil ==> forall(a, 0, len(t.Entries), spec_tree_mode(t.Entries[a].Mode))
+//gvc:  loop 1 invariant bad: forall(k, 0, len(errs), errs[k] != nil)
+//gvc:  loop 1 invariant names: len(errs) == 0 ==> forall(a, 0, it1, len(t.Entries[a].Name) > 0 && has(seen, strid(t.Entries[a].Name)) && !exists(k, 0, len(t.Entries[a].Name), t.Entries[a].Name[k] == '/'))
+//gvc:  loop 1 invariant seenonly: forall(k, has(seen, k) ==> exists(a, 0, it1, strid(t.Entries[a].Name) == k))
+//gvc:  loop 1 invariant nodup: len(errs) == 0 ==> forall(a, 0, it1, forall(b, 0, a, strid(t.Entries[a].Name) != strid(t.Entries[b].Name)))
+//gvc:  ensures nodup: result == nil ==> forall(a, 0, len(t.Entries), forall(b, 0, a, strid(t.Entries[a].Name) != strid(t.Entries[b].Name)))
+//gvc:  ensures named: result == nil ==> forall(a, 0, len(t.Entries), len(t.Entries[a].Name) > 0 && !exists(k, 0, len(t.Entries[a].Name), t.Entries[a].Name[k] == '/'))
+//gvc:end
+
+// Tree.Encode writes nothing before Validate has accepted the entries: the
+// object's writer is requested only for a duplicate-free list of named entries
+// with git's tree modes (the producer-side gate of property C04).
+//gvc:func (*Tree).Encode
+//gvc:  props C04
+//gvc:  theory int
+//gvc:  opt coarse
+//gvc:  opt frame args
+//gvc:  requires nn: o != nil
+//gvc:  loop 1 invariant pos: it1 >= 0
+//gvc:  sink Writer requires gate: forall(a, 0, len(t.Entries), spec_tree_mode(t.Entries[a].Mode) && len(t.Entries[a].Name) > 0 && forall(b, 0, a, strid(t.Entries[a].Name) != strid(t.Entries[b].Name)))
+//gvc:end
